@@ -1391,14 +1391,22 @@ var (
 // itself, or an in-module helper that invokes it and returns its result.
 // argOf maps parameters of the function containing `call` to the argument
 // values of the call under analysis (context), nil = all call sites.
-func c02ErrIdentities(p *Prog, call ssa.CallInstruction, argOf map[*ssa.Parameter]ssa.Value, depth int) map[string]bool {
+func c02ErrIdentities(p *Prog, call ssa.CallInstruction, argOf map[*ssa.Parameter]ssa.Value, depth int, inHelper ...bool) map[string]bool {
 	out := map[string]bool{}
 	if depth > 4 {
 		return out
 	}
 	cc := call.Common()
 	if cc.IsInvoke() {
-		out[CalleeName(call)] = true // a store / registry operation: identified by its interface method
+		// a store / registry operation: identified by its interface method — when it
+		// is the call itself or what a function value (closure, method value) passed
+		// around performs.  An operation a named helper performs on its own is the
+		// helper's business: the helper has to handle the tolerated sentinel itself.
+		if len(inHelper) > 0 && inHelper[0] {
+			out["?"] = true
+		} else {
+			out[CalleeName(call)] = true
+		}
 		return out
 	}
 	if g, off := c02CalleeOf(call); g != nil && StaticCallee(call) != nil {
@@ -1408,7 +1416,7 @@ func c02ErrIdentities(p *Prog, call ssa.CallInstruction, argOf map[*ssa.Paramete
 				binding[prm] = a
 			}
 		}
-		return c02FnErrIdentities(p, g, binding, depth+1)
+		return c02FnErrIdentities(p, g, binding, depth+1, true)
 	}
 	if StaticCallee(call) != nil {
 		return out
@@ -1499,7 +1507,7 @@ func c02ValueIdentities(p *Prog, v ssa.Value, depth int) map[string]bool {
 }
 
 // c02FnErrIdentities: the identities of the call results g returns as its error.
-func c02FnErrIdentities(p *Prog, g *ssa.Function, binding map[*ssa.Parameter]ssa.Value, depth int) map[string]bool {
+func c02FnErrIdentities(p *Prog, g *ssa.Function, binding map[*ssa.Parameter]ssa.Value, depth int, inHelper ...bool) map[string]bool {
 	out := map[string]bool{}
 	errIdx := ErrResultIndex(g.Signature)
 	if errIdx < 0 || depth > 4 {
@@ -1518,7 +1526,7 @@ func c02FnErrIdentities(p *Prog, g *ssa.Function, binding map[*ssa.Parameter]ssa
 		if u == nil {
 			continue
 		}
-		for k := range c02ErrIdentities(p, u, binding, depth+1) {
+		for k := range c02ErrIdentities(p, u, binding, depth+1, inHelper...) {
 			out[k] = true
 		}
 	}
